@@ -55,7 +55,58 @@ fn run_cmd(cmd: u8, src: &mut Src, obs: &mut Obs) -> CaseResult {
     });
     obs.case_with(|| case_json(cmd, &msg, &model));
     check_message(cmd, &model, &msg)
-        .map_err(|(sig, m)| Fail::new(sig, m, case_json(cmd, &msg, &model)).with_concrete("c01_concrete", msg.clone()))
+        .map_err(|(sig, m)| Fail::new(sig, m, case_json(cmd, &msg, &model)).with_concrete("c01_concrete", msg.clone()))?;
+    // the same parameters with the entries of every map (at every level) in another order: legal
+    // CBOR, not canonical. A decoder may refuse it; one that accepts it has been handed the same
+    // members under the same keys and must report the same values (judged by the same oracle).
+    if src.chance(1, 3) {
+        let mut permuted = refcbor::canonicalize(&model);
+        let mut moved = false;
+        permute_maps(&mut permuted, src, &mut moved);
+        if moved {
+            let mut pm = vec![cmd];
+            pm.extend_from_slice(&refcbor::encode(&permuted));
+            obs.sub("member-order-permuted", &[b"perm", &pm]);
+            if crate::props::c04::status_of(&pm).is_none() {
+                check_message(cmd, &model, &pm).map_err(|(sig, m)| {
+                    Fail::new(
+                        format!("{}:permuted-member-order", sig),
+                        format!("with the members of its maps in another order (accepted by the decoder): {}", m),
+                        case_json(cmd, &pm, &model),
+                    )
+                })?;
+            } else {
+                obs.label("member-order-permuted:rejected");
+            }
+        }
+    }
+    Ok(())
+}
+
+/// rotate / reverse the entries of every map with at least two entries
+fn permute_maps(v: &mut Value, src: &mut Src, moved: &mut bool) {
+    match v {
+        Value::Map(m) => {
+            if m.len() >= 2 {
+                if src.bool() {
+                    m.reverse();
+                } else {
+                    let k = 1 + src.below(m.len() - 1);
+                    m.rotate_left(k);
+                }
+                *moved = true;
+            }
+            for (_, x) in m.iter_mut() {
+                permute_maps(x, src, moved);
+            }
+        }
+        Value::Array(a) => {
+            for x in a.iter_mut() {
+                permute_maps(x, src, moved);
+            }
+        }
+        _ => {}
+    }
 }
 
 /// generator-independent replay: payload = the request message itself; the model is
@@ -136,7 +187,7 @@ fn g_nested(src: &mut Src, obs: &mut Obs) -> CaseResult {
     })
 }
 
-pub const RULE: &str = "Requests are constructed (never filtered): a parameter map is built as a reference-CBOR value from the specification's key table, every top-level presence subset and every nested presence combination is enumerated (proptest fills the values), plus free proptest cases; values come from the boundary lattice {0,1,cap-1,cap}/{0,1,23,24,255,256,65535,65536,max} or are random; message = command byte || canonical encoding. Oracle: Request::deserialize is Ok and every public field equals the member sent under its specification key after the documented lossy maps (implemented independently in the harness). Non-trivial: at least one optional member present and one absent, or a member on a lattice boundary; distinct by message bytes.";
+pub const RULE: &str = "One case in three is additionally sent with the entries of every map, at every level, in another order (legal, not canonical): if the decoder accepts it (COSE keys are order-strict and are refused) the same oracle must hold. Requests are constructed (never filtered): a parameter map is built as a reference-CBOR value from the specification's key table, every top-level presence subset and every nested presence combination is enumerated (proptest fills the values), plus free proptest cases; values come from the boundary lattice {0,1,cap-1,cap}/{0,1,23,24,255,256,65535,65536,max} or are random; message = command byte || canonical encoding. Oracle: Request::deserialize is Ok and every public field equals the member sent under its specification key after the documented lossy maps (implemented independently in the harness). Non-trivial: at least one optional member present and one absent, or a member on a lattice boundary; distinct by message bytes.";
 pub const ASSUMPTIONS: &[&str] = &[
     "the harness's key tables (reqmodel.rs) are a faithful transcription of CTAP 2.0/2.1/2.2",
     "refcbor (reference encoder) is correct; guarded by `ctv selftest`",
